@@ -18,6 +18,7 @@ import signal
 import socket
 import contextlib
 
+from .worker import WorkerTerminatedError
 from .persistent_process import PersistentProcessWorker
 from .remote_pickle import loads, dumps, SupportRemoteGetState
 from .remote import sanitize_target_host, send_msg, recv_msg, ConnectionClosedError, set_keepalive
@@ -179,4 +180,11 @@ class RemoteContext(SupportRemoteGetState):
             self._children.append(child)
             return True
         except ConnectionClosedError:
+            return False
+        except WorkerTerminatedError:
+            raise
+        except Exception:
+            # a client that misbehaves or disappears in the middle of its request should not take down
+            # the context together with the workers of everybody else using it
+            logger.exception('Error occurred while creating a worker within context {}:', self._id)
             return False
